@@ -23,7 +23,8 @@ def monitor(case, il, sl):
     v = monitors.consumers(tr, rr, "c11-terminal")
     if v:
         return v
-    return None
+    # a compliant frame that ends the connection leaves every consumer without its terminal message
+    return monitors.compliant_frame_rejected(case, il, sl, "c11-no-terminal")
 
 
 def nontrivial(case, il):
@@ -45,5 +46,7 @@ def gen(tier, seed):
 
 
 def suites(tier, seed):
-    return [Suite("sessions", "machine", lambda: gen(tier, seed), monitor=monitor, nontrivial=nontrivial, canon=mg.canon_nondet, candidate_ok=mg.candidate_ok,
+    return [Suite("idle-consumer-backlog", "machine", lambda: [mg.backlog_cases(Rng(seed + 31), "consumer", 70000)], monitor=monitor, nontrivial=lambda c, il: True, canon=mg.canon_nondet, shrink=False, compare=(tier != "quick"), timeout=600,
+                  rule="a consumer with 70 000 unread deliveries is cancelled by the server: after the 70 000 deliveries exactly one terminal message, then disconnected (quick: monitor only; thorough: also diffed against the model)"),
+            Suite("sessions", "machine", lambda: gen(tier, seed), monitor=monitor, nontrivial=nontrivial, canon=mg.canon_nondet, candidate_ok=mg.candidate_ok,
                   rule="random sessions biased to consumer lifecycles: consume, deliveries, client cancel (with deliveries racing the CancelOk), server cancel (nowait t/f), channel close by either side, connection close by either side, on 1-6 channels with several consumers each")]
